@@ -6,11 +6,13 @@
 //!   nsec <apex> <dnskey> <name>/<rtype>/<class>/<ttl>/<soa minimum> ..
 //!                                                => Ok <owner>/<next>/<bitmap>/<ttl>/<class> .. | Err n | Panic
 //!   nsec3 <apex> <dnskey> <alg> <flags> <iters> <salt> <excl> <s|m|f<ttl>> <name>/<rtype>/<class>/<ttl>/<min> ..
-//!                                                => Ok <class> <nsec3param ttl> <hash>/<next>/<bitmap>/<ttl> .. | Err n | Panic
+//!                                                => Ok <alg>/<flags>/<iters>/<salt> <param owner>/<class>/<ttl>/<alg>/<flags>/<iters>/<salt> <class> <hash>/<next>/<bitmap>/<ttl> .. | Err n | Panic
+//!      (the first word: the parameters carried by the NSEC3 records, MIXED if they differ among them)
 //!   hash <name> <iters> <salt>                   => <hash hex>
 //!   dedup <name>/<rtype>/<u|k>/<rdata> ..        => <name>/<rtype> ..   (SortedRecords' dedup)
 //!   label <hash> <apex>                          => Ok <owner name> <decoded first label>
-//!   srt <name>/<rtype>/<u|k>/<rdata> ..          => <name>/<rtype>/<rdata> ..   (SortedRecords::from_iter on unsorted input)
+//!   parse <octets>                               => Ok | Err 10 | Err 11   (RtypeBitmap::from_octets)
+//!   srt <class>/<name>/<rtype>/<u|k>/<rdata> ..  => <class>/<name>/<rtype>/<rdata> ..   (SortedRecords::from_iter on unsorted input)
 //! The record list of a case is the content of the SortedRecords vector, in its
 //! order.  The oracle works from the unsorted record set with its own
 //! canonical ordering, authoritative-name computation, bitmap parser, Base32hex
@@ -310,12 +312,12 @@ struct Spec {
     names: BTreeMap<Vec<u8>, (Labels, BTreeSet<u16>)>,
     apex: Labels,
     wf: bool,
-    /// some non-RRSIG RRset has records with different TTLs (Rrset::new panics on those)
-    mixed_ttl: bool,
     /// SOA records exist at the apex only
     soa_only_apex: bool,
     /// (TTL, MINIMUM) of the apex SOA
     soa: Option<(u32, u32)>,
+    /// lower-cased owners holding a non-RRSIG RRset with several TTLs
+    mixed_names: BTreeSet<Vec<u8>>,
 }
 impl Spec {
     fn new(z: &Zone) -> Spec {
@@ -330,10 +332,10 @@ impl Spec {
         let wf = soa_count.get(&wire(&apex)) == Some(&1) && soa_count.values().all(|&c| c <= 1);
         let mut ttls: BTreeMap<(Vec<u8>, u16), BTreeSet<u32>> = BTreeMap::new();
         for r in &z.recs { if r.rtype != RRSIG { ttls.entry((wire(&lower(&r.owner)), r.rtype)).or_default().insert(r.ttl); } }
-        let mixed_ttl = ttls.values().any(|t| t.len() > 1);
+        let mixed_names: BTreeSet<Vec<u8>> = ttls.iter().filter(|(_, t)| t.len() > 1).map(|(k, _)| k.0.clone()).collect();
         let soa_only_apex = soa_count.keys().all(|k| *k == wire(&apex));
         let soa = z.recs.iter().find(|r| r.rtype == SOA && lower(&r.owner) == apex).map(|r| (r.ttl, r.minimum));
-        Spec { names, apex, wf, mixed_ttl, soa_only_apex, soa }
+        Spec { names, apex, wf, soa_only_apex, soa, mixed_names }
     }
     fn in_zone(&self, n: &Labels) -> bool { at_or_below(n, &self.apex) }
     fn is_deleg(&self, n: &Labels) -> bool {
@@ -347,6 +349,13 @@ impl Spec {
         let mut v: Vec<Labels> = self.names.values().map(|e| e.0.clone()).filter(|n| self.in_zone(n) && !self.occluded(n)).collect();
         v.sort_by(canon_cmp);
         v
+    }
+    /// The root cause of `rrset_mixed_ttl_panic`: an owner the generator visits
+    /// (authoritative, and with `excl` not an insecure delegation) holds an RRset
+    /// whose records differ in TTL, so Rrset::new's expect() fires.
+    fn mixed_ttl_visited(&self, excl: bool) -> bool {
+        self.auth_names().iter().any(|n| self.mixed_names.contains(&wire(n))
+            && !(excl && self.is_deleg(n) && !self.types(n).contains(&DS)))
     }
     fn types(&self, n: &Labels) -> BTreeSet<u16> { self.names.get(&wire(n)).map(|e| e.1.clone()).unwrap_or_default() }
     /// types of `n` visible from the parent side
@@ -426,7 +435,13 @@ fn run_nsec(out: &mut Out, z: &Zone, sp: &Spec, dk: bool, r: &mut Rng) {
     out.case(&case, &obs, s.len() > 1, &format!("nsec_{}", z.kind));
     // an RRset with several TTLs makes Rrset::new panic (its documented expect); the model
     // has the same panic site (T2), the property says nothing about such zones
-    if sp.mixed_ttl { out.count(if res.is_err() { "mixed_ttl_panic" } else { "mixed_ttl_not_visited" }); return; }
+    if sp.mixed_ttl_visited(false) {
+        // RFC 2181 5.2: a zone may carry such an RRset; the generator must not panic on it
+        // only the expect() of Rrset::new belongs to this class; any other panic is panic_nsec
+        let ttl_panic = res.as_ref().err().map_or(false, |m| m.contains("TTLs should be the same"));
+        out.check(!ttl_panic, "rrset_mixed_ttl_panic", &case, res.as_ref().err().map(|s| s.as_str()).unwrap_or(""));
+        if ttl_panic { return; }
+    }
     out.check(res.is_ok(), "panic_nsec", &case, res.as_ref().err().map(|s| s.as_str()).unwrap_or(""));
     if !sp.wf { return; }
     let Some(recs) = recs else {
@@ -520,7 +535,6 @@ fn run_nsec3(out: &mut Out, z: &Zone, sp: &Spec, c: &Cfg3, r: &mut Rng) {
             let items: Vec<String> = recs.iter().map(|x| format!("{}/{}/{}/{}", x.hash.as_ref().map(|h| hex(h)).unwrap_or("BADOWNER".into()), hex(&x.next), hex(&x.types), x.ttl)).collect();
             let p = &v.nsec3param;
             let pclass = p.class().to_int();
-            let class_word = if recs.iter().all(|x| x.class == pclass) { pclass.to_string() } else { "MIXED".to_string() };
             let pok = lower(&labels_of_wire(p.owner().as_slice())) == sp.apex && p.data().flags() == c.flags && p.data().iterations() == c.iters
                 && p.data().salt().as_slice() == &c.salt[..] && p.data().hash_algorithm().to_int() == c.alg;
             out.check(pok, "nsec3_param_record", &case, "NSEC3PARAM differs from the configuration");
@@ -529,11 +543,23 @@ fn run_nsec3(out: &mut Out, z: &Zone, sp: &Spec, c: &Cfg3, r: &mut Rng) {
                 out.check(p.ttl().as_secs() == want, "nsec3param_ttl", &case, &format!("TTL {} want {}", p.ttl().as_secs(), want));
                 for x in &recs { out.check(x.ttl == t.min(m), "nsec3_ttl", &case, &format!("TTL {} want {}", x.ttl, t.min(m))); }
             }
-            (format!("Ok {} {} {}", class_word, p.ttl().as_secs(), if items.is_empty() { "-".to_string() } else { items.join(" ") }), Some(recs))
+            let pw = |a: u8, f: u8, i: u16, sl: &[u8]| format!("{}/{}/{}/{}", a, f, i, hex(sl));
+            let rec_params = match recs.first() {
+                Some(x0) if recs.iter().all(|x| (x.alg, x.flags, x.iters, &x.salt) == (x0.alg, x0.flags, x0.iters, &x0.salt)) => pw(x0.alg, x0.flags, x0.iters, &x0.salt),
+                _ => "MIXED".to_string(),
+            };
+            let class_word = match recs.first() { Some(x0) if recs.iter().all(|x| x.class == x0.class) => x0.class.to_string(), _ => "MIXED".to_string() };
+            let param = format!("{}/{}/{}/{}", hex(p.owner().as_slice()), pclass, p.ttl().as_secs(),
+                pw(p.data().hash_algorithm().to_int(), p.data().flags(), p.data().iterations(), p.data().salt().as_slice()));
+            (format!("Ok {} {} {} {}", rec_params, param, class_word, if items.is_empty() { "-".to_string() } else { items.join(" ") }), Some(recs))
         }
     };
     out.case(&case, &obs, s.len() > 1, &format!("nsec3_{}", z.kind));
-    if sp.mixed_ttl { out.count(if res.is_err() { "mixed_ttl_panic3" } else { "mixed_ttl_not_visited3" }); return; }
+    if sp.mixed_ttl_visited(c.flags & 1 != 0 && c.excl) {
+        let ttl_panic = res.as_ref().err().map_or(false, |m| m.contains("TTLs should be the same"));
+        out.check(!ttl_panic, "rrset_mixed_ttl_panic", &case, res.as_ref().err().map(|s| s.as_str()).unwrap_or(""));
+        if ttl_panic { return; }
+    }
     out.check(res.is_ok(), "panic_nsec3", &case, res.as_ref().err().map(|s| s.as_str()).unwrap_or(""));
     if c.alg != 1 {
         out.check(obs == "Err 3" || !sp.wf, "nsec3_unsupported_alg", &case, &obs);
@@ -652,6 +678,21 @@ fn run_label(out: &mut Out, n: &Labels, apex: &Labels, iters: u16, salt: &[u8]) 
     }
 }
 
+fn run_parse(out: &mut Out, d: &[u8]) {
+    let case = format!("parse {}", hex(d));
+    out.begin(&case);
+    let v = d.to_vec();
+    let res = catch_mut(move || RtypeBitmap::from_octets(v).map(|_| ()).map_err(|e| domain::base::wire::ParseError::from(e)));
+    let obs = match &res { Err(_) => "Panic".to_string(), Ok(Ok(())) => "Ok".into(),
+        Ok(Err(domain::base::wire::ParseError::ShortInput)) => "Err 10".into(), Ok(Err(_)) => "Err 11".into() };
+    out.case(&case, &obs, d.len() > 2, "parse");
+    out.check(res.is_ok(), "panic_bitmap", &case, "");
+    // accepted iff a sequence of complete windows with 1..32 bitmap octets
+    let mut i = 0; let mut ok = true;
+    while i < d.len() { if i + 2 > d.len() { ok = false; break; } let l = d[i + 1] as usize; if l == 0 || l > 32 || i + 2 + l > d.len() { ok = false; break; } i += 2 + l; }
+    out.check((obs == "Ok") == ok, "bitmap_from_octets", &case, &obs);
+}
+
 fn run_bitmap(out: &mut Out, ts: &[u16], ps: &[u16]) {
     let j = |v: &[u16]| if v.is_empty() { "-".to_string() } else { v.iter().map(|x| x.to_string()).collect::<Vec<_>>().join(",") };
     let case = format!("bm {} {}", j(ts), j(ps));
@@ -723,32 +764,32 @@ fn run_dedup(out: &mut Out, recs: &[(Labels, u16, bool, Vec<u8>)]) {
 /// SortedRecords::from_iter on records in arbitrary order: the result is in
 /// canonical owner order (types ascending within an owner) and holds every
 /// (owner, type) of the input.
-fn run_sort(out: &mut Out, recs: &[(Labels, u16, bool, Vec<u8>)]) {
-    let mk = |x: &(Labels, u16, bool, Vec<u8>)| -> Record<N, D> {
-        let data: D = if x.2 { ZoneRecordData::Ns(Ns::new(mk_name(&vec![x.3.clone()]))) }
-            else { ZoneRecordData::Unknown(UnknownRecordData::from_octets(Rtype::from_int(x.1), Bytes::from(x.3.clone())).unwrap()) };
-        Record::new(mk_name(&x.0), Class::IN, Ttl::from_secs(3600), data)
+fn run_sort(out: &mut Out, recs: &[(u16, Labels, u16, bool, Vec<u8>)]) {
+    let mk = |x: &(u16, Labels, u16, bool, Vec<u8>)| -> Record<N, D> {
+        let data: D = if x.3 { ZoneRecordData::Ns(Ns::new(mk_name(&vec![x.4.clone()]))) }
+            else { ZoneRecordData::Unknown(UnknownRecordData::from_octets(Rtype::from_int(x.2), Bytes::from(x.4.clone())).unwrap()) };
+        Record::new(mk_name(&x.1), Class::from_int(x.0), Ttl::from_secs(3600), data)
     };
-    let rd = |x: &(Labels, u16, bool, Vec<u8>)| if x.2 { wire(&vec![x.3.clone()]) } else { x.3.clone() };
-    let items: Vec<String> = recs.iter().map(|x| format!("{}/{}/{}/{}", hex(&wire(&x.0)), x.1, if x.2 { "k" } else { "u" }, hex(&rd(x)))).collect();
+    let rd = |x: &(u16, Labels, u16, bool, Vec<u8>)| if x.3 { wire(&vec![x.4.clone()]) } else { x.4.clone() };
+    let items: Vec<String> = recs.iter().map(|x| format!("{}/{}/{}/{}/{}", x.0, hex(&wire(&x.1)), x.2, if x.3 { "k" } else { "u" }, hex(&rd(x)))).collect();
     let case = format!("srt {}", items.join(" "));
     out.begin(&case);
     let res = catch_mut(|| {
         let s = SortedRecords::<N, D>::from_iter(recs.iter().map(mk));
         s.iter().map(|r| {
             let d = match r.data() { ZoneRecordData::Ns(ns) => ns.nsdname().as_slice().to_vec(), ZoneRecordData::Unknown(u) => u.data().to_vec(), _ => vec![] };
-            (labels_of_wire(r.owner().as_slice()), r.rtype().to_int(), d)
+            (r.class().to_int(), labels_of_wire(r.owner().as_slice()), r.rtype().to_int(), d)
         }).collect::<Vec<_>>()
     });
     match res {
         Err(e) => { out.case(&case, "Panic", true, "srt"); out.check(false, "panic_sorted_records", &case, &e); }
         Ok(got) => {
-            let obs: Vec<String> = got.iter().map(|(n, t, d)| format!("{}/{}/{}", hex(&wire(n)), t, hex(d))).collect();
+            let obs: Vec<String> = got.iter().map(|(c, n, t, d)| format!("{}/{}/{}/{}", c, hex(&wire(n)), t, hex(d))).collect();
             out.case(&case, &if obs.is_empty() { "-".to_string() } else { obs.join(" ") }, recs.len() > 1, "srt");
-            out.check(got.windows(2).all(|w| match canon_cmp(&w[0].0, &w[1].0) { Ordering::Less => true, Ordering::Equal => w[0].1 <= w[1].1, Ordering::Greater => false }),
-                "sorted_records_order", &case, "not in canonical owner / type order");
-            let want: BTreeSet<(Vec<u8>, u16)> = recs.iter().map(|x| (wire(&lower(&x.0)), x.1)).collect();
-            let have: BTreeSet<(Vec<u8>, u16)> = got.iter().map(|(n, t, _)| (wire(&lower(n)), *t)).collect();
+            out.check(got.windows(2).all(|w| w[0].0 < w[1].0 || (w[0].0 == w[1].0 && match canon_cmp(&w[0].1, &w[1].1) { Ordering::Less => true, Ordering::Equal => w[0].2 <= w[1].2, Ordering::Greater => false })),
+                "sorted_records_order", &case, "not in class / canonical owner / type order");
+            let want: BTreeSet<(u16, Vec<u8>, u16)> = recs.iter().map(|x| (x.0, wire(&lower(&x.1)), x.2)).collect();
+            let have: BTreeSet<(u16, Vec<u8>, u16)> = got.iter().map(|(c, n, t, _)| (*c, wire(&lower(n)), *t)).collect();
             out.check(want == have, "sorted_records_drops_type", &case, "");
         }
     }
@@ -818,6 +859,21 @@ fn main() {
         if !out.wants(idx) { continue; }
         run_bitmap(&mut out, &ts, &ps);
     }
+    // from_octets cases
+    let n_parse = if a.thorough { 3000 } else { 250 } * a.scale;
+    for i in 0..n_parse {
+        let mut d: Vec<u8> = vec![];
+        for _ in 0..r.below(4) {
+            let l = match r.below(6) { 0 => 0, 1 => 32, 2 => 33, _ => r.range(1, 4) } as usize;
+            d.push(r.below(4) as u8); d.push(l as u8);
+            let have = if r.chance(1, 6) { l.saturating_sub(1) } else { l };
+            d.extend(r.bytes(have));
+        }
+        if i % 7 == 0 { d.push(r.u8()); }
+        idx += 1;
+        if !out.wants(idx) { continue; }
+        run_parse(&mut out, &d);
+    }
     // SortedRecords dedup cases
     let n_dd = if a.thorough { 3000 } else { 200 } * a.scale;
     let fixed_dd: Vec<Vec<(Labels, u16, bool, Vec<u8>)>> = vec![
@@ -843,11 +899,13 @@ fn main() {
     let n_srt = if a.thorough { 3000 } else { 200 } * a.scale;
     for i in 0..n_srt + 1 {
         let k = if i == 0 { 0 } else { r.range(1, 8) };
-        let recs: Vec<(Labels, u16, bool, Vec<u8>)> = (0..k).map(|_| {
+        let two_classes = r.chance(1, 3);
+        let recs: Vec<(u16, Labels, u16, bool, Vec<u8>)> = (0..k).map(|_| {
+            let cl: u16 = if two_classes { *r.pick(&[1u16, 3, 1, 254]) } else { 1 };
             let owner = match r.below(7) { 0 => l(&["a"]), 1 => l(&["A"]), 2 => l(&["b", "a"]), 3 => l(&["B", "A"]), 4 => l(&["z"]), 5 => l(&["*", "a"]), _ => vec![] };
             let t = *r.pick(&[1u16, 2, 2, 16, 17, 65280, 65281]);
-            if t == 2 { (owner, t, true, r.pick(&[&b"n"[..], b"m", b"nn"]).to_vec()) }
-            else { (owner, t, false, r.pick(&[&[1u8][..], &[2], &[1, 0], &[], &[0xff]]).to_vec()) }
+            if t == 2 { (cl, owner, t, true, r.pick(&[&b"n"[..], b"m", b"nn"]).to_vec()) }
+            else { (cl, owner, t, false, r.pick(&[&[1u8][..], &[2], &[1, 0], &[], &[0xff]]).to_vec()) }
         }).collect();
         idx += 1;
         if !out.wants(idx) { continue; }
